@@ -283,6 +283,23 @@ Theorem C06_route_J2000 : forall x v, -5 <= x <= 5 -> dot v v = 1 ->
    cos (d2r (1 / 10000)) <= dot (E_route x (- x) v) (R_route x (- x) v)).
 Proof. exact route_J2000. Qed.
 
+(* ... and these zero-inclination results are the right ORBIT: the frame Rz(node) Rx(i) Rz(arg) built from
+   the returned elements equals the ecliptical precession rotation (the one precession_ecliptical applies,
+   C06_ecl_rotation) applied to the frame of the input elements -- orbit pole and perihelion direction are
+   carried exactly; the stored eta strictly between 0 and 180 deg (forward) or -180 and 0 (backward) *)
+Theorem C06_orbital_zero_orientation : forall eta pie p w0 o0 v,
+  (0 < dms_sec eta < 180 ->
+     let o := orb_out0_pos eta pie p w0 o0 in
+     orbit_frame (fst (fst o)) (snd (fst o)) (snd o) v
+     = rot_ecl (d2r (dms_sec eta)) (d2r (pie_deg pie)) (d2r (dms_sec p)) (orbit_frame 0 w0 o0 v)) /\
+  (-180 < dms_sec eta < 0 ->
+     let o := orb_out0_neg eta pie p w0 o0 in
+     orbit_frame (fst (fst o)) (snd (fst o)) (snd o) v
+     = rot_ecl (d2r (dms_sec eta)) (d2r (pie_deg pie)) (d2r (dms_sec p)) (orbit_frame 0 w0 o0 v)).
+Proof.
+  exact (fun eta pie p w0 o0 v => conj (orb0_pos_orientation eta pie p w0 o0 v) (orb0_neg_orientation eta pie p w0 o0 v)).
+Qed.
+
 Redirect "C06_equ_closed_form.assumptions" Print Assumptions C06_equ_closed_form.
 Redirect "C06_equ_rotation.assumptions" Print Assumptions C06_equ_rotation.
 Redirect "C06_equ_identity.assumptions" Print Assumptions C06_equ_identity.
@@ -305,3 +322,4 @@ Redirect "C06_ecl_there_and_back.assumptions" Print Assumptions C06_ecl_there_an
 Redirect "C06_newcomb_vs_fk5.assumptions" Print Assumptions C06_newcomb_vs_fk5.
 Redirect "C06_route_first_order.assumptions" Print Assumptions C06_route_first_order.
 Redirect "C06_route_J2000.assumptions" Print Assumptions C06_route_J2000.
+Redirect "C06_orbital_zero_orientation.assumptions" Print Assumptions C06_orbital_zero_orientation.
